@@ -1197,6 +1197,12 @@ static Plan gen_mpi(Rng& r, int tier, std::string const& focus)
         f.v = static_cast<u64>(4294967296.0 * 0.05);
         p.faults.push_back(f);
     }
+    p.aux.assign(2, 0);
+    if (p.calls.size() >= 2 && r.chance(0.25))
+    {
+        p.aux[0] = 1 + r.below(p.calls.size() - 1);
+        p.aux[1] = r.chance(0.5) ? p.P : 1 + r.below(9);
+    }
     if (r.chance(0.3))
     {
         Fault f;
@@ -1208,27 +1214,20 @@ static Plan gen_mpi(Rng& r, int tier, std::string const& focus)
     return p;
 }
 
-static void exec_mpi(Plan const& p, Report& rep)
+// one MPI segment (a run of the mpi_* integrator on the session's checkpoint) with all C04 / C16 oracles
+static bool mpi_segment(Plan const& p, Session& s, std::vector<u64> const& seg_calls, u64 P, RunCtl ctl, Report& rep)
 {
     std::string const key = fmt("%s %s %s", integ_name(p.integ), nt_name(p.nt), engine_name(p.eng));
     ld const eps = eps_of(p.nt);
-    u64 const P = p.P;
-    rep.nontrivial = (P > 1);
-    fs().reset();
-
-    Session s(p, rep);
-    s.fresh();
-    RunCtl ctl = ctl_from_plan(p);
-    ctl.filename = CHK;
-    ctl.stall_p = (p.variant == 0) ? 0.0 : (p.variant == 1) ? 0.05 : 0.25;
-    RunOut const o = s.run(p.calls, ctl);
+    ctl.P = P;
+    RunOut const o = s.run(seg_calls, ctl);
 
     if (o.threw)
     {
         rep.fail("C04", "exception", key, o.what);
-        return;
+        return false;
     }
-    if (o.hang || o.killed) return;   // hang already reported by the session
+    if (o.hang || o.killed) return false;   // hang already reported by the session
 
     ChkptView const v = s.w->view();
     UsageInfo const ui = s.w->usage();
@@ -1246,7 +1245,7 @@ static void exec_mpi(Plan const& p, Report& rep)
         {
             rep.fail("C04", "collectives-differ", key, fmt("rank %llu executed another sequence of collectives than rank 0",
                 (unsigned long long) r));
-            return;
+            return false;
         }
     }
 
@@ -1256,13 +1255,13 @@ static void exec_mpi(Plan const& p, Report& rep)
         if (o.rank_texts[r] != o.rank_texts[0])
         {
             rep.fail("C04", "ranks-differ", key, fmt("rank %llu returned another checkpoint than rank 0", (unsigned long long) r));
-            return;
+            return false;
         }
     }
     if ((fs().writer_rank_mask & ~1) != 0)
     {
         rep.fail("C04", "file-from-non-root", key, "a rank other than 0 wrote a checkpoint file");
-        return;
+        return false;
     }
 
     // C16: tiling of the engine positions
@@ -1271,7 +1270,7 @@ static void exec_mpi(Plan const& p, Report& rep)
         u64 start = 0;   // position (raw outputs consumed) at which the iteration starts, same on every rank
         for (u64 k = o.base; k < o.results; ++k)
         {
-            u64 const N = p.calls[k - o.base];
+            u64 const N = seg_calls[k - o.base];
             std::vector<u64> first(P, ~0ULL), count(P, 0), enter(P, 0);
             for (u64 r = 0; r != P; ++r)
             {
@@ -1296,7 +1295,7 @@ static void exec_mpi(Plan const& p, Report& rep)
                 rep.fail("C16", "share-sizes", k16, fmt("iteration %llu: shares sum to %llu (min %llu, max %llu), total is %llu",
                     (unsigned long long) k, (unsigned long long) total, (unsigned long long) mn, (unsigned long long) mx,
                     (unsigned long long) N));
-                return;
+                return false;
             }
             u64 expect = start;
             for (u64 r = 0; r != P; ++r)
@@ -1307,7 +1306,7 @@ static void exec_mpi(Plan const& p, Report& rep)
                         "iteration %llu: rank %llu starts at stream position %llu, the shares before it end at %llu",
                         (unsigned long long) k, (unsigned long long) r, (unsigned long long) first[r],
                         (unsigned long long) expect));
-                    return;
+                    return false;
                 }
                 expect += count[r] * per_call;
                 if (enter[r] != start + N * per_call)
@@ -1316,7 +1315,7 @@ static void exec_mpi(Plan const& p, Report& rep)
                         "iteration %llu: rank %llu enters the collective at stream position %llu, expected %llu",
                         (unsigned long long) k, (unsigned long long) r, (unsigned long long) enter[r],
                         (unsigned long long) (start + N * per_call)));
-                    return;
+                    return false;
                 }
                 if (count[r] == 0) rep.probes["empty-share"]++;
             }
@@ -1332,7 +1331,7 @@ static void exec_mpi(Plan const& p, Report& rep)
         if (!ref.ok)
         {
             rep.fail("C04", "serial-reference-failed", key, fmt("iteration %llu", (unsigned long long) k));
-            return;
+            return false;
         }
         rep.calls += ref.log.calls.size();
 
@@ -1349,7 +1348,7 @@ static void exec_mpi(Plan const& p, Report& rep)
         {
             rep.fail("C04", "point-count", key, fmt("iteration %llu: ranks evaluated %zu points, serial iteration %zu",
                 (unsigned long long) k, par.size(), ref.log.calls.size()));
-            return;
+            return false;
         }
 
         // multiset comparison: sort both by the bit patterns of the random numbers
@@ -1373,7 +1372,7 @@ static void exec_mpi(Plan const& p, Report& rep)
             rep.fail("C04", "points-differ", key, fmt(
                 "iteration %llu with %llu ranks: the multiset of evaluated points differs from the serial iteration",
                 (unsigned long long) k, (unsigned long long) P));
-            return;
+            return false;
         }
         if (in_order) rep.probes["points-in-rank-order"]++;
 
@@ -1385,7 +1384,7 @@ static void exec_mpi(Plan const& p, Report& rep)
                 "iteration %llu: counters (%llu, %llu, %llu), serial (%llu, %llu, %llu)", (unsigned long long) k,
                 (unsigned long long) rv.calls, (unsigned long long) rv.nz, (unsigned long long) rv.fin,
                 (unsigned long long) sv.calls, (unsigned long long) sv.nz, (unsigned long long) sv.fin));
-            return;
+            return false;
         }
 
         // magnitudes for the tolerances
@@ -1404,18 +1403,18 @@ static void exec_mpi(Plan const& p, Report& rep)
         {
             rep.fail("C04", "sum-differs", key, fmt("iteration %llu: sum %.21Lg, serial %.21Lg", (unsigned long long) k,
                 rv.sum, sv.sum));
-            return;
+            return false;
         }
         if (!(std::fabs(rv.sumsq - sv.sumsq) <= (2 * N + P + 4) * eps * sumsq))
         {
             rep.fail("C04", "sumsq-differs", key, fmt("iteration %llu: sum of squares %.21Lg, serial %.21Lg",
                 (unsigned long long) k, rv.sumsq, sv.sumsq));
-            return;
+            return false;
         }
         if (rv.adj.size() != sv.adj.size())
         {
             rep.fail("C04", "adjustment-size", key, fmt("iteration %llu", (unsigned long long) k));
-            return;
+            return false;
         }
         for (std::size_t j = 0; j != rv.adj.size(); ++j)
         {
@@ -1424,13 +1423,13 @@ static void exec_mpi(Plan const& p, Report& rep)
             {
                 rep.fail("C04", "adjustment-differs", key, fmt("iteration %llu entry %zu: %.21Lg, serial %.21Lg",
                     (unsigned long long) k, j, rv.adj[j], sv.adj[j]));
-                return;
+                return false;
             }
         }
         if (rv.dists.size() != sv.dists.size())
         {
             rep.fail("C04", "distribution-count", key, fmt("iteration %llu", (unsigned long long) k));
-            return;
+            return false;
         }
         for (std::size_t d = 0; d != rv.dists.size(); ++d)
         {
@@ -1439,7 +1438,7 @@ static void exec_mpi(Plan const& p, Report& rep)
             if (pb.size() != sb.size())
             {
                 rep.fail("C04", "bin-count", key, fmt("iteration %llu distribution %zu", (unsigned long long) k, d));
-                return;
+                return false;
             }
             for (std::size_t i = 0; i != pb.size(); ++i)
             {
@@ -1450,7 +1449,7 @@ static void exec_mpi(Plan const& p, Report& rep)
                         (unsigned long long) k, d, i, (unsigned long long) pb[i].calls, (unsigned long long) pb[i].nz,
                         (unsigned long long) pb[i].fin, (unsigned long long) sb[i].calls, (unsigned long long) sb[i].nz,
                         (unsigned long long) sb[i].fin));
-                    return;
+                    return false;
                 }
                 ld const sc = std::max(std::fabs(pb[i].sum), std::fabs(sb[i].sum));
                 ld const sq = std::max(pb[i].sumsq, sb[i].sumsq);
@@ -1462,7 +1461,7 @@ static void exec_mpi(Plan const& p, Report& rep)
                     rep.fail("C04", "bin-sums-differ", key, fmt(
                         "iteration %llu distribution %zu bin %zu: sum %.21Lg serial %.21Lg, sumsq %.21Lg serial %.21Lg",
                         (unsigned long long) k, d, i, pb[i].sum, sb[i].sum, pb[i].sumsq, sb[i].sumsq));
-                    return;
+                    return false;
                 }
             }
         }
@@ -1473,8 +1472,45 @@ static void exec_mpi(Plan const& p, Report& rep)
             rep.fail("C04", "stored-generator-differs", key, fmt(
                 "iteration %llu: generator stored by the parallel run is not the serial generator after the iteration",
                 (unsigned long long) k));
-            return;
+            return false;
         }
+    }
+
+    return true;
+}
+
+static void exec_mpi(Plan const& p, Report& rep)
+{
+    std::string const key = fmt("%s %s %s", integ_name(p.integ), nt_name(p.nt), engine_name(p.eng));
+    u64 const P = p.P;
+    rep.nontrivial = (P > 1);
+    fs().reset();
+
+    Session s(p, rep);
+    s.fresh();
+    RunCtl ctl = ctl_from_plan(p);
+    ctl.filename = CHK;
+    ctl.stall_p = (p.variant == 0) ? 0.0 : (p.variant == 1) ? 0.05 : 0.25;
+
+    // aux = {split, P2}: the job is stopped after `split` iterations, restarted from the text with P2
+    // ranks (a different world size is legal: only the text survives)
+    u64 const split = (p.aux.size() >= 2 && p.aux[0] > 0 && p.aux[0] < p.calls.size() && p.stop < 0) ? p.aux[0] : 0;
+
+    if (split == 0)
+    {
+        if (!mpi_segment(p, s, p.calls, P, ctl, rep)) return;
+    }
+    else
+    {
+        std::vector<u64> const first(p.calls.begin(), p.calls.begin() + split);
+        std::vector<u64> const second(p.calls.begin() + split, p.calls.end());
+        if (!mpi_segment(p, s, first, P, ctl, rep)) return;
+        if (s.w->nresults() != split) return;   // early stop
+        if (!s.reload("mpi restart")) return;
+        rep.faults["mpi-restart-other-world-size"] += (p.aux[1] != P);
+        ctl.sseed = mix2(ctl.sseed, 7);
+        if (!mpi_segment(p, s, second, std::max<u64>(1, p.aux[1]), ctl, rep)) return;
+        return;
     }
 
     // P = 1 must reproduce the serial integrator's text exactly
